@@ -722,14 +722,42 @@ def r3(ctx, ci):
     if fi is None:
         raise AnalysisError("C08-R3: Region.union missing")
     al = pixeldict_aliases(fi.node)
-    common = [n for n in walk_no_nested(fi.node) if isinstance(n, ast.For)
-              and _range_bounds(n.iter) and "min" in norm(n.iter)]
     okc = False
+    import copy as _copy
+    import sympy as sp
+    from .. import sym as _sym
+    S_, O_ = sp.Symbol("S", integer=True, positive=True), \
+        sp.Symbol("O", integer=True, positive=True)
+
+    class _Res(ast.NodeTransformer):
+        def visit_Name(self, nd):
+            r = _resolve_local(fi.node, nd)
+            if r is not nd and isinstance(nd.ctx, ast.Load):
+                return self.visit(_copy.deepcopy(r))
+            return nd
+
+    def symb(e, extra=None):
+        env = {"self.maxdepth": S_, "other.maxdepth": O_}
+        env.update(extra or {})
+        e2 = _Res().visit(_copy.deepcopy(e))
+        try:
+            return _sym.Translator(ctx.prog, ctx.prog.modules[fi.module],
+                                   env).expr(e2)
+        except _sym.Untranslatable:
+            return None
+    common = [n for n in walk_no_nested(fi.node) if isinstance(n, ast.For)
+              and _range_bounds(n.iter) and any(
+                  isinstance(c_, ast.Call) and norm(c_.func) == "min"
+                  for c_ in ast.walk(_Res().visit(_copy.deepcopy(n.iter))))]
     for lp in common:
         lo, hi = _range_bounds(lp.iter)
-        if norm(lo) == "1" and norm(hi).replace(" ", "") in (
-                "min(self.maxdepth,other.maxdepth)+1",
-                "min(other.maxdepth,self.maxdepth)+1"):
+        hs, ls = symb(hi), symb(lo)
+        wants = [symb(ast.parse(t_, mode="eval").body) for t_ in (
+            "min(self.maxdepth, other.maxdepth) + 1",
+            "min(other.maxdepth, self.maxdepth) + 1")]
+        if ls == 1 and hs is not None and any(
+                w_ is not None and sp.simplify(hs - w_) == 0
+                for w_ in wants):
             for c in ast.walk(lp):
                 if isinstance(c, ast.Call) and norm(c.func) in (
                         "self.add_pixels",) and len(c.args) >= 2 and \
@@ -765,11 +793,18 @@ def r3(ctx, ci):
                     isinstance(v.op, (ast.FloorDiv, ast.RShift, ast.Div))
                 div_ok = False
                 if shape_ok:
-                    t = norm(v.right).replace(" ", "")
-                    div_ok = t in ("4**(d-self.maxdepth)",
-                                   "2*(d-self.maxdepth)") or \
-                        ("d-self.maxdepth" in t and
-                         ("4**" in t or isinstance(v.op, ast.RShift)))
+                    # the level variable: the loop over the deeper levels
+                    lvl = [l_.target.id for l_ in walk_no_nested(fi.node)
+                           if isinstance(l_, ast.For) and
+                           isinstance(l_.target, ast.Name) and
+                           _range_bounds(l_.iter) and
+                           any(x is c for x in ast.walk(l_))]
+                    D_ = sp.Symbol("D", integer=True, positive=True)
+                    rs = symb(v.right, {lvl[0]: D_}) if lvl else None
+                    if rs is not None:
+                        want = 2 * (D_ - S_) if isinstance(
+                            v.op, ast.RShift) else 4 ** (D_ - S_)
+                        div_ok = sp.simplify(rs - want) == 0
                 ctx.check("C08-R3", fi, "union: promotion divisor",
                           shape_ok and div_ok,
                           "a pixel of level d>maxdepth maps to "
